@@ -88,6 +88,22 @@ func init() {
 		if sp, ok := s.v.(*Value); ok && sp != nil {
 			src = *sp
 		}
+		// a list of interface values restored into a struct goes field by field (the codec's
+		// positional mapping between an encoded []interface{}{...} and the struct decoded from it)
+		if list, ok := src.([]Value); ok {
+			if st, ok := (*dp).(structure); ok && len(list) > 0 {
+				if _, isIface := list[0].(iface); isIface {
+					if len(list) != len(st) {
+						panic(unsupported{"zzverif.Restore: list and struct have different lengths"})
+					}
+					for i := range st {
+						el, _ := list[i].(iface)
+						e.store(&st[i], e.deepClone(el.v, map[*Value]*Value{}, map[*MapObj]*MapObj{}))
+					}
+					return nil
+				}
+			}
+		}
 		e.store(dp, e.deepClone(src, map[*Value]*Value{}, map[*MapObj]*MapObj{}))
 		return nil
 	}
